@@ -87,7 +87,7 @@ the framework as it stood when the wave was produced):
   (and by H4 / treating ill-formed references as violations); the sub-agents' side observations led to
   findings F28, F29.
 
-With the final framework every re-runnable change is caught (`seeded/final_run2.log` for waves 1-4, `seeded/final_run3.log` for wave 5: own check +
+With the final framework every re-runnable change is caught (`seeded/final_run2.log` for waves 1-4, `seeded/final_run3.log` for wave 5, `seeded/final_run4.log` = the 35 export-related changes of waves 1-4 once more after hook H4 and the last extensions: own check +
 every check that ever reported the change, re-run on the final tree) and no check ended in a machinery
 error. Changes caught only by neighbouring checks are those where the change, as it manifests, does not
 violate the target property's own clause (e.g. C13-m1 after its port is deterministic but leaves import
